@@ -10,7 +10,7 @@ From Coq Require Import String Permutation.
 From SLX Require Import Base Word256 PackingArith gen.Constants gen.ValueSig gen.OpcodeTable gen.PassOrder gen.RulesSig gen.WordUseTable gen.LayoutKey
   SymVal Micro gen.OpcodeSem Disasm VM Fold PassesSlots PassesPacking TypeExpr Merge VectorMap DisjointSet Register Rules
   Unify AbiT Layout Abi PolledLoop Pipeline NoPanic.
-From SLX.proofs Require Import PipelinePolls LayoutProofs UnifyProofs AbiProofs PipelineProofs PipelineNoPanic UnifyInSlot.
+From SLX.proofs Require Import PipelinePolls LayoutProofs UnifyProofs AbiProofs PipelineProofs PipelineNoPanic NoPanicUnify UnifyInSlot.
 Open Scope N_scope.
 
 (* ---- the inversion of PipelineProofs.analyze_plain_inv, keeping the call of unify ---- *)
@@ -110,4 +110,26 @@ Proof.
   destruct (rows_in_slot_after_unify_lemma (f_rounds fu) (orders_of mode) (tstate_of st) s n (orders_of_ok mode) Hin Eu
               (S (N.to_nat n)) (tv_of v) index a (Hroom (tv_of v)) Ha e Hr) as (_ & H1 & H2).
   split; assumption.
+Qed.
+
+(* ---- the hypotheses are decidable on a concrete run (and satisfiable: props/C12_pipeline.v) ---- *)
+Definition room_okb (s : dsu iset) (n : N) : bool :=
+  forallb (fun v0 =>
+    match Abi.type_of (env_of_forest s n) v0 with
+    | Ok (Packed ts _) =>
+        forallb (fun sp => match Abi.type_of (env_of_forest s n) (s_typ sp) with
+                           | Ok (Word (Some w) _) => s_off sp + w <=? 256
+                           | _ => true
+                           end) ts
+    | _ => true
+    end) (vars_below n).
+
+Lemma room_okb_sound s n : room_okb s n = true -> room_ok (env_of_forest s n).
+Proof.
+  intros H v0 ts b sp w u Ht Hin Hs. unfold room_okb in H. rewrite forallb_forall in H.
+  assert (Hv : v0 < n).
+  { destruct (v0 <? n) eqn:E; [apply N.ltb_lt; exact E|]. unfold Abi.type_of in Ht. cbn [env_of_forest ty_data has_expr] in Ht.
+    rewrite E in Ht. discriminate. }
+  specialize (H v0 (proj2 (in_vars_below n v0) Hv)). rewrite Ht in H. rewrite forallb_forall in H. specialize (H sp Hin).
+  rewrite Hs in H. apply N.leb_le. exact H.
 Qed.
